@@ -640,20 +640,13 @@ func runC10Client(c *ev.Case, ctx *lib.Ctx, seq []int, allByIdx bool) {
 		}
 		fired = true
 		ch := peer.Header(msgs[0])
-		seenCEA := false
 		for i, k := range seq {
 			hbh := uint32(200 + i)
 			switch k {
 			case qCEAok:
-				if !seenCEA {
-					stream = append(stream, peer.StdCEA(ch.HopByHop, ch.EndToEnd, 2001, 4)...)
-					seenCEA = true
-				}
+				stream = append(stream, peer.StdCEA(ch.HopByHop, ch.EndToEnd, 2001, 4)...)
 			case qCEAbad:
-				if !seenCEA {
-					stream = append(stream, peer.StdCEA(ch.HopByHop, ch.EndToEnd, 5010)...)
-					seenCEA = true
-				}
+				stream = append(stream, peer.StdCEA(ch.HopByHop, ch.EndToEnd, 5010)...)
 			case qReqA:
 				stream = append(stream, c10Wire(pReqA, hbh)...)
 			case qReqB:
@@ -791,7 +784,9 @@ func TestC10(t *testing.T) {
 		c10Dress = c.I
 		run(c, func() { runC10AtOnce(c, ctx, K, 30, c.I%2 == 0) })
 	})
-	// client role: all sequences up to length 4 with at most one CEA
+	// client role: all sequences up to length 4 with at most two CEAs (a refusal followed by a
+	// success in the same segment leaves the connection refused; a success followed by
+	// anything leaves it accepted)
 	var cseqs [][]int
 	var cbuild func(cur []int, ceas int)
 	cbuild = func(cur []int, ceas int) {
@@ -802,7 +797,7 @@ func TestC10(t *testing.T) {
 			return
 		}
 		for k := 0; k < nClientMsgs; k++ {
-			if (k == qCEAok || k == qCEAbad) && ceas > 0 {
+			if (k == qCEAok || k == qCEAbad) && ceas > 1 {
 				continue
 			}
 			nc := ceas
